@@ -283,6 +283,37 @@ def jsonlReverse {α ε : Type} (parse : List Nat → Except ε α) (ignore : Bo
   consume parse ignore (reverseIterLines c bs)
 
 
+/-! ### JSONLIterator(rel_seek=…): start somewhere inside a text-mode file -/
+
+/-- offset of the first `\n` / `\r` in `s` (universal newlines present both to
+    `_align_to_newline` as `'\n'`); `none`: there is none -/
+def firstBreak : List Nat → Option Nat
+  | [] => none
+  | c :: cs => if bytesBreak c then some 0 else (firstBreak cs).map (· + 1)
+
+/-- `_init_rel_seek` + `_align_to_newline` on a text-mode file of single-byte characters:
+    `fo.seek(target)`, read on until a block contains `'\n'`, `fo.seek` ON that line break.
+    `none`: no line break at or after the target — the `while '\n' not in cur` loop of the code
+    never ends (outside the model's domain; the harness does not generate it). -/
+def alignToNewline (c : List Nat) (target : Nat) : Option Nat :=
+  (firstBreak (c.drop target)).map (target + ·)
+
+/-- `JSONLIterator(f, ignore_errors, reverse, rel_seek)` drained, `target = int(size * rel_seek)`:
+    forward mode reads the lines from the aligned position on, reverse mode the lines before it -/
+def jsonlRelSeek {α ε : Type} (parse : List Nat → Except ε α) (ignore reverse : Bool) (bs : Nat)
+    (c : List Nat) (target : Nat) : Option (List α × Option ε) :=
+  match alignToNewline c target with
+  | none => none
+  | some p =>
+    some (if reverse then consume parse ignore (reverseIterLinesFrom c p bs)
+          else consume parse ignore (fileLinesT false (c.drop p)))
+
+/-- `rel_seek=0.0` is special-cased by `_init_rel_seek`: position 0, no alignment -/
+def jsonlRelSeekZero {α ε : Type} (parse : List Nat → Except ε α) (ignore reverse : Bool) (bs : Nat)
+    (c : List Nat) : List α × Option ε :=
+  if reverse then consume parse ignore (reverseIterLinesFrom c 0 bs)
+  else consume parse ignore (fileLinesT false c)
+
 /-- SPEC: the object a line contributes when errors are ignored: none for a blank line
     (nothing left after `line.lstrip().rstrip('\r\n')`) and for an undecodable one -/
 def objOf {α ε : Type} (parse : List Nat → Except ε α) (l : List Nat) : Option α :=
